@@ -216,6 +216,9 @@ pub struct Shim {
     pub tls: Option<Arc<rustls::ServerConfig>>,
     pub iterate_params: bool,
     pub param_probe: Option<ParamProbe>,
+    /// executions (by ordinal) whose parameters the shim does not look at
+    pub skip_iter: Vec<bool>,
+    pub n_exec: usize,
 }
 
 impl Shim {
@@ -229,6 +232,8 @@ impl Shim {
             tls: None,
             iterate_params: true,
             param_probe: None,
+            skip_iter: Vec::new(),
+            n_exec: 0,
         }
     }
 
@@ -344,7 +349,9 @@ impl<'s, W: Read + Write> MysqlShim<W> for &'s mut Shim {
 
     fn on_execute(&mut self, id: u32, params: ParamParser<'_>, results: QueryResultWriter<'_, W>) -> Result<(), ShimErr> {
         let mut ps = Vec::new();
-        if self.iterate_params {
+        let ord = self.n_exec;
+        self.n_exec += 1;
+        if self.iterate_params && !self.skip_iter.get(ord).copied().unwrap_or(false) {
             for (i, p) in params.into_iter().enumerate() {
                 if let Some(probe) = self.param_probe.as_mut() {
                     probe(i, &p);
